@@ -652,8 +652,13 @@ func (a *App) sendRecvLoop() error {
 		}
 
 		if a.sendInterval < 0 {
-			a.count++
-			return a.recvLoop()
+			// No interval: collect what comes back (until the receive
+			// times out or the request / survey is done), then send
+			// the next one if more were asked for.
+			if err = a.recvLoop(); err != nil {
+				return err
+			}
+			continue
 		}
 
 		now := time.Now()
